@@ -71,3 +71,45 @@ class SymParamParser(object):
   @property
   def eam_density_fs(self):
     return self._sym_list(self._cp.eam_density_fs, "EAM-Density")
+
+
+# ---------------------------------------------------------------------------
+# Rendering a (possibly re-parameterised) model back to potable text, used to
+# replay solver witnesses through Configuration().read()
+
+def _num(v):
+  return repr(float(v)) if isinstance(v, float) else repr(v)
+
+
+def render_definition(node, values, section, key, counter=None):
+  """Text of a potential definition tuple chain; float parameters are replaced,
+  in traversal order, by values['<section>|<key>|<n>'] when present."""
+  counter = counter if counter is not None else [0]
+  parts = []
+  while node is not None:
+    st = ""
+    if node.start is not None:
+      st = "%s%s " % (node.start.range_type, _num(node.start.start))
+    if hasattr(node, "modifier"):
+      inner = ", ".join(render_definition(p, values, section, key, counter) for p in node.potential_forms)
+      parts.append("%s%s(%s)" % (st, node.modifier, inner))
+    else:
+      ps = []
+      for v in node.parameters:
+        if isinstance(v, float):
+          counter[0] += 1
+          name = "%s|%s|%d" % (section, key, counter[0])
+          v = values.get(name, v)
+        ps.append(_num(v))
+      parts.append(("%s%s %s" % (st, node.potential_form, " ".join(ps))).rstrip())
+    node = node.next
+  return " ".join(parts)
+
+
+def render_pairs(cp, values, section="Pair"):
+  lines = ["[%s]" % section]
+  tuples = cp.pair if section == "Pair" else cp.parse_pair_like(section)
+  for t in tuples:
+    key = "-".join(t.species)
+    lines.append("%s-%s : %s" % (t.species[0], t.species[1], render_definition(t.potential_form_instance, values, section, key)))
+  return "\n".join(lines) + "\n"
